@@ -464,6 +464,9 @@ package litefs
 //@   pure
 //@ func litefs.OS.*
 //@   pure
+//@ func litefs.OS.ReadDir
+//@   pure
+//@   ensures forall i int :: 0 <= i && i < len(ret0) ==> ret0[i] != nil
 //@ func litefs.OS.OpenFile
 //@   pure
 //@   ensures ret1 == nil ==> ret0 != nil
@@ -590,4 +593,275 @@ package litefs
 //@ func (db *DB) readWALPageOffsets [C17,C05,C03]
 //@   requires  dbWF(db) && f != nil
 //@   loop 1 invariant walReaderReady(r) && txOffsets != nil && offsets != nil
+//@   nopanic
+
+// ===========================================================================
+// db.go — commit protocols (C02, C03, C05, C07, C09, C13, C15)
+//
+// Protocol automata: ghost variables updated at named calls. `w` records that Writeable() returned
+// true (guard dominance, C07); `stage` records the durable-before-visible order (C05); data-flow
+// assertions at the calls pin the LTX header, the position set and the checksum (C02, C09).
+
+//@ spec func posOf(db *DB) ltx.Pos = as(aload(db.pos), ltx.Pos)
+
+//@ func field.DB.Now
+//@   pure
+
+//@ func (db *DB) Writeable [C07]
+//@   requires db != nil && db.store != nil
+//@   pure
+
+//@ func (db *DB) isJournalHeaderValid [C02]
+//@   requires db != nil && db.os != nil
+//@   pure
+
+// invalidateJournal: in each of the three modes the journal is invalidated through the OS layer, the
+// directory is fsynced, and only then the dirty page set is replaced by an empty one. Nothing else in memory changes.
+//@ func (db *DB) invalidateJournal [C02,C05]
+//@   requires  db != nil && db.os != nil
+//@   modifies  db.dirtyPageSet
+//@   ensures   err == nil ==> db.dirtyPageSet != nil && fresh(db.dirtyPageSet) && (forall p uint32 :: !has(db.dirtyPageSet, p))
+//@   ensures   err != nil ==> db.dirtyPageSet == old(db.dirtyPageSet)
+//@   nopanic
+
+//@ func (db *DB) CommitJournal [C02,C05,C07,C09,C13]
+//@   requires  dbWF(db) && db.dirtyPageSet != nil
+//@   ghost w bool = false
+//@   ghost hdrValid bool = false
+//@   ghost stage int = 0
+//@   ghost post ltx.Checksum = 0
+//@   on call DB.Writeable ; then w = ret0
+//@   on call DB.isJournalHeaderValid assert w && stage == 0 ; then hdrValid = (ret0 && ret1 == nil)
+//@   on call DB.invalidateJournal assert w && ((stage == 0 && (!hdrValid || db.pageSize == 0)) || stage == 9) ; then stage = (stage == 9 && ret0 == nil ? 10 : stage)
+//@   on call OS.Create op "COMMITJOURNAL:LTX" assert w && hdrValid && db.pageSize != 0 && stage == 0 ; then stage = 1
+//@   on call ltx.Encoder.EncodeHeader assert stage == 1 && arg1.MinTXID == old(posOf(db)).TXID + 1 && arg1.MaxTXID == arg1.MinTXID &&
+//@        arg1.PreApplyChecksum == old(posOf(db)).PostApplyChecksum && arg1.PageSize == db.pageSize && arg1.Commit == commit ; then stage = (ret0 == nil ? 2 : stage)
+//@   on call ltx.Encoder.EncodePage assert stage == 2
+//@   on call DB.checksum assume arg1 <= 0xffffff00
+//@   on call DB.checksum assert stage == 2 && arg1 == commit ; then stage = 3, post = ret0
+//@   on call ltx.Encoder.SetPostApplyChecksum assert stage == 3 && arg1 == post ; then stage = 4
+//@   on call ltx.Encoder.Close assert stage == 4 ; then stage = (ret0 == nil ? 5 : stage)
+//@   on call os.File.Sync assert (stage == 5 && arg0 == ltxFile) || (stage == 8 && arg0 == dbFile) ; then stage = (ret0 != nil ? stage : (stage == 5 ? 6 : 9))
+//@   on call Client.Commit assert stage == 6
+//@   on call OS.Rename op "COMMITJOURNAL:LTX" assert stage == 6 ; then stage = (ret0 == nil ? 7 : stage)
+//@   on call internal.Sync assert stage == 7 ; then stage = (ret0 == nil ? 8 : stage)
+//@   on call DB.setPos assert stage == 10 && arg1.TXID == old(posOf(db)).TXID + 1 && arg1.PostApplyChecksum == post ; then stage = 11
+//@   on call Store.MarkDirty assert stage == 11 ; then stage = 12
+//@   loop 1 invariant stage == 0 && w && hdrValid && db.pageSize != 0 && dbWF(db)
+//@   loop 2 invariant stage == 2 && w && hdrValid && db.pageSize != 0 && dbWF(db)
+//@   ensures   !w ==> err == ErrReadOnlyReplica && stage == 0
+//@   ensures   err == nil ==> stage == 12 || (stage == 0 && (!hdrValid || db.pageSize == 0))
+
+// the closure of CommitJournal that clears the checksums of truncated pages
+//@ func litefs.DB.CommitJournal$5
+//@   loop 1 invariant dbWF(db) && db.pageSize != 0 && commit <= i
+
+// ===========================================================================
+// db.go — aggregate checksum (C04): safety, frame and flag-bit contracts.
+
+// Keys of the WAL checksum overlays are page numbers (never zero).
+//@ pred walKeysPositive(db *DB) = forall p uint32 :: has(db.wal.chksums, p) ==> p > 0
+
+//@ func (db *DB) pageChecksum [C04,C03,C02]
+//@   requires  db != nil && pgno > 0 && db.pageSize != 0 && len(db.chksums.pages) <= 0xffffffff
+//@   modifies
+//@   ensures   pgno == ltx.LockPgno(db.pageSize) ==> chksum == 0 && ok
+//@   ensures   pgno != ltx.LockPgno(db.pageSize) && pgno > pageN ==> !ok
+//@   nopanic
+
+//@ func (db *DB) recomputeBlockChksum [C04]
+//@   requires  db != nil && len(db.chksums.pages) <= 0xffffffff && len(db.chksums.blocks) <= 0xffffffff && block < 0xffffff && chkArraysDisjoint(db)
+//@   loop 1 invariant i <= 256 && len(db.chksums.blocks) > int(block) && (i > 0 ==> chksum & ltx.ChecksumFlag != 0)
+//@   loop 1 decreases 256 - int(i)
+//@   modifies  db.chksums.blocks, contents(db.chksums.blocks)
+//@   ensures   len(db.chksums.blocks) > int(block) && len(db.chksums.blocks) >= old(len(db.chksums.blocks)) && len(db.chksums.blocks) <= 0xffffffff
+//@   ensures   db.chksums.blocks[int(block)] & ltx.ChecksumFlag != 0
+//@   ensures   chkArraysDisjoint(db)
+//@   nopanic
+
+//@ func (db *DB) blockChksum [C04]
+//@   requires  db != nil && len(db.chksums.pages) <= 0xffffffff && len(db.chksums.blocks) <= 0xffffffff && block < 0xffffff && chkArraysDisjoint(db)
+//@   modifies  db.chksums.blocks, contents(db.chksums.blocks)
+//@   ensures   len(db.chksums.blocks) <= 0xffffffff && chkArraysDisjoint(db)
+//@   ensures   result != 0
+//@   nopanic
+
+// checksum(pageN, new): never panics for any page count and any overlay keys; only fills the block cache;
+// a successful result carries the flag bit; pageN == 0 gives exactly the empty checksum.
+//@ func (db *DB) checksum [C04,C03,C02,C15]
+//@   requires  dbWF(db) && db.pageSize != 0 && walKeysPositive(db) && (forall p uint32 :: has(newWALChecksums, p) ==> p > 0)
+//@   requires  pageN <= 0xffffff00
+//@   loop 1 invariant len(ignoredBlocks) == int(blockN)
+//@   loop 1 modifies contents(ignoredBlocks)
+//@   loop 2 invariant len(ignoredBlocks) == int(blockN)
+//@   loop 2 modifies contents(ignoredBlocks)
+//@   loop 3 invariant len(ignoredBlocks) == int(blockN) && dbWF(db) && db.pageSize != 0 && block <= blockN &&
+//@          ((block == 0 && chksum == 0) || chksum & ltx.ChecksumFlag != 0)
+//@   loop 3 modifies db.chksums.blocks, contents(db.chksums.blocks)
+//@   loop 4 invariant i <= 256 && block < blockN && (i > 0 ==> chksum & ltx.ChecksumFlag != 0) &&
+//@          ((block == 0 && chksum == 0) || chksum & ltx.ChecksumFlag != 0)
+//@   loop 4 modifies
+//@   modifies  db.chksums.blocks, contents(db.chksums.blocks)
+//@   ensures   dbWF(db)
+//@   ensures   pageN == 0 ==> result0 == ltx.ChecksumFlag && err == nil
+//@   ensures   err == nil ==> result0 & ltx.ChecksumFlag != 0
+//@   nopanic
+
+// ===========================================================================
+// db.go — rollback-journal entry points (C02, C07)
+// Guard dominance: every state-changing call is dominated by a Writeable() that returned true;
+// otherwise the result is ErrReadOnlyReplica and nothing was touched.
+
+//@ func (db *DB) WriteDatabaseAt [C02,C07]
+//@   requires  dbWF(db) && db.dirtyPageSet != nil && f != nil
+//@   ghost w bool = false
+//@   ghost wrote bool = false
+//@   on call DB.Writeable ; then w = ret0
+//@   on call DB.writeDatabasePage assert w && len(arg3) == int(db.pageSize) && db.pageSize != 0 &&
+//@        offset % int64(db.pageSize) == 0 && arg2 == uint32(offset / int64(db.pageSize)) + 1 && arg4 == false &&
+//@        (dbModeIs(db, DBModeRollback) ==> has(db.dirtyPageSet, arg2)) ; then wrote = true
+//@   ensures   !w ==> err == ErrReadOnlyReplica && !wrote && unchanged(db.pageSize, db.dirtyPageSet)
+//@   ensures   err == nil && len(data) != 0 ==> wrote
+//@   ensures   !wrote ==> (forall p uint32 :: has(db.dirtyPageSet, p) ==> old(has(db.dirtyPageSet, p)) || (w && p == uint32(offset / int64(db.pageSize)) + 1))
+//@   nopanic
+
+//@ func (db *DB) CreateJournal [C02,C07]
+//@   requires  dbWF(db)
+//@   ghost w bool = false
+//@   on call DB.Writeable ; then w = ret0
+//@   on call OS.OpenFile assert w
+//@   ensures   !w ==> err == ErrReadOnlyReplica
+//@   nopanic
+
+// WriteJournalAt: refused on a node without write authority; a write of exactly 28 zero bytes at offset 0
+// is the PERSIST-mode commit and goes through CommitJournal before the bytes are passed through.
+//@ func (db *DB) WriteJournalAt [C02,C07]
+//@   requires  dbWF(db) && db.dirtyPageSet != nil && f != nil
+//@   ghost w bool = false
+//@   ghost committed bool = false
+//@   on call DB.Writeable ; then w = ret0
+//@   on call DB.CommitJournal assume db.pageSize <= 65536
+//@   on call DB.CommitJournal assert w && offset == 0 && len(data) == 28 && arg2 == JournalModePersist ; then committed = true
+//@   on call os.File.WriteAt assert w && arg1 == data && arg2 == offset
+//@   ensures   !w ==> err == ErrReadOnlyReplica && unchanged(db.pageSize)
+//@   nopanic
+
+// TruncateDatabase: only to the size the database header already states (no image change).
+//@ func (db *DB) TruncateDatabase [C02,C07]
+//@   requires  dbWF(db)
+//@   on call DB.truncateDatabase assert db.pageSize != 0 && size % int64(db.pageSize) == 0 && arg2 == uint32(size / int64(db.pageSize))
+//@   nopanic
+
+//@ func (db *DB) TruncateJournal [C02,C07]
+//@   requires  dbWF(db) && db.dirtyPageSet != nil
+//@   on call DB.CommitJournal assert arg2 == JournalModeTruncate
+//@   nopanic
+
+//@ func (db *DB) RemoveJournal [C02,C07]
+//@   requires  dbWF(db) && db.dirtyPageSet != nil
+//@   on call DB.CommitJournal assert arg2 == JournalModeDelete
+//@   nopanic
+
+// readSQLiteDatabaseHeader: on success the page size is a power of two in [512, 65536].
+//@ func readSQLiteDatabaseHeader [C02,C16,C05]
+//@   requires  r != nil
+//@   ensures   err == nil ==> hdr.PageSize >= 512 && hdr.PageSize <= 65536 && hdr.PageSize & (hdr.PageSize - 1) == 0
+//@   nopanic
+
+// ===========================================================================
+// db.go — blocking write-lock acquisition, startup and recovery (C05, C11, C13)
+
+// AcquireWriteLock: retries TryAcquireWriteLock until it succeeds, the callback reports an error, or the
+// context ends. The callback (used by the halt lock to detect a racing acquire with the same ID) is
+// assumed not to modify lock state.
+//@ func (db *DB) AcquireWriteLock [C11,C13,C05]
+//@   requires  db != nil && locksWF(db) && typeis(aload(db.mode), DBMode) && ctx != nil
+//@   callee dyn.fn pure
+//@   loop 1 invariant locksWF(db) && typeis(aload(db.mode), DBMode)
+//@   ensures   locksWF(db)
+//@   ensures   err == nil ==> result0 != nil && fresh(result0) && guardSetWF(result0, db)
+//@   ensures   err == nil && dbModeIs(db, DBModeRollback) ==> holdsWriteLockRollback(result0)
+//@   ensures   err == nil && !dbModeIs(db, DBModeRollback) ==> holdsWriteLockWAL(result0)
+//@   ensures   err != nil ==> result0 == nil
+//@   nopanic
+
+// recover: the journal is rolled back first, then the WAL is checkpointed; both errors propagate.
+//@ func (db *DB) recover [C05,C17,C11,C13]
+//@   requires  dbWF(db)
+//@   ghost stage int = 0
+//@   on call DB.rollbackJournal assert stage == 0 ; then stage = (ret0 == nil ? 1 : stage)
+//@   on call DB.CheckpointNoLock assert stage == 1 ; then stage = (ret0 == nil ? 2 : stage)
+//@   ensures   err == nil ==> stage == 2
+//@   ensures   dbWF(db)
+//@   nopanic
+
+// CheckpointNoLock: pages are copied from the WAL only through writeDatabasePage(…, invalidate=true) with the
+// offsets readWALPageOffsets returned; the size is restored to the last commit iff there was one; then the
+// WAL is truncated to zero, the in-memory WAL checksums are dropped and the SHM is rewritten.
+//@ func (db *DB) CheckpointNoLock [C05,C17,C03]
+//@   requires  dbWF(db)
+//@   ghost stage int = 0
+//@   ghost nonEmpty bool = false
+//@   on call DB.readWALPageOffsets assert stage == 0 ; then stage = (ret2 == nil ? 1 : stage), nonEmpty = len(ret0) > 0
+//@   on call DB.writeDatabasePage assert stage == 1 && nonEmpty && arg4 == true
+//@   on call DB.truncateDatabase assert stage == 1 && nonEmpty && arg2 == commit ; then stage = (ret0 == nil ? 2 : stage)
+//@   on call DB.TruncateWAL assert (stage == 2 || (stage == 1 && !nonEmpty)) && arg2 == 0 ; then stage = (ret0 == nil ? 3 : stage)
+//@   on call DB.updateSHM assert stage == 3 ; then stage = (ret0 == nil ? 4 : stage)
+//@   loop 1 invariant stage == 1 && nonEmpty && dbWF(db) && db.pageSize != 0 && len(buf) == int(db.pageSize) && walFile != nil && dbFile != nil
+//@   ensures   err == nil ==> stage == 4 || stage == 0
+//@   ensures   dbWF(db)
+//@   nopanic
+
+//@ func (db *DB) TruncateWAL [C05,C03,C16]
+//@   requires  db != nil && db.os != nil
+//@   modifies  db.wal.frameOffsets, db.wal.chksums
+//@   ensures   err == nil ==> size == 0 && db.wal.chksums != nil && db.wal.frameOffsets != nil && fresh(db.wal.chksums) && (forall p uint32 :: !has(db.wal.chksums, p))
+//@   ensures   err != nil ==> unchanged(db.wal.frameOffsets, db.wal.chksums)
+//@   nopanic
+
+// syncWALToLTX: the newest LTX file is verified before its WAL fields are used; the WAL is truncated only
+// to exactly WALOffset+WALSize and only when its salts match the file's; it is renamed away when they do not.
+//@ func (db *DB) syncWALToLTX [C05]
+//@   requires  dbWF(db)
+//@   ghost verified bool = false
+//@   on call ltx.Decoder.Verify ; then verified = (ret0 == nil)
+//@   on call os.File.Truncate assert verified && arg1 == dec.header.WALOffset + dec.header.WALSize
+//@   on call OS.Rename op "SYNCWAL" assert verified
+//@   nopanic
+
+// maxLTXFile: returns the name with the greatest max TXID among the names that parse as LTX files.
+//@ func (db *DB) maxLTXFile [C05,C09]
+//@   requires  dbWF(db)
+//@   loop 1 invariant -1 <= rangeindex && rangeindex < len(ents)
+//@   nopanic
+
+//@ func (db *DB) initFromDatabaseHeader [C05]
+//@   requires  dbWF(db)
+//@   ensures   err == nil ==> dbWF(db)
+//@   nopanic
+
+// initDatabaseFile: the per-page checksum slice has one slot per page of the header's page count, slots at and
+// beyond the first unreadable page are zero, the lock page's slot is zero, no block aggregate is cached.
+//@ func (db *DB) initDatabaseFile [C05,C04]
+//@   requires  dbWF(db)
+//@   ensures   err == nil ==> dbWF(db)
+//@   nopanic
+
+// Open: header → ltx dir → SHM removed → newest LTX chosen → WAL trimmed to it → journal rolled back and WAL
+// checkpointed → checksums rebuilt → newest LTX re-applied under the full write lock, which is released on every return.
+//@ func (db *DB) Open [C05,C11]
+//@   requires  dbWF(db) && locksWF(db)
+//@   ghost stage int = 0
+//@   ghost locked bool = false
+//@   on call DB.initFromDatabaseHeader assert stage == 0 ; then stage = (ret0 == nil ? 1 : stage)
+//@   on call OS.Remove op "OPEN:SHM" assert stage == 1 ; then stage = 2
+//@   on call DB.maxLTXFile assert stage == 2 ; then stage = (ret1 == nil ? 3 : stage)
+//@   on call DB.syncWALToLTX assert stage == 3 && arg2 == ltxFilename && ltxFilename != ""
+//@   on call DB.recover assert stage == 3 ; then stage = (ret0 == nil ? 4 : stage)
+//@   on call DB.initDatabaseFile assert stage == 4 ; then stage = (ret0 == nil ? 5 : stage)
+//@   on call DB.AcquireWriteLock assert stage == 5 && ltxFilename != "" ; then locked = (ret1 == nil)
+//@   on call DB.ApplyLTXNoLock assert stage == 5 && locked && arg1 == ltxFilename && arg2 == false ; then stage = (ret0 == nil ? 6 : stage)
+//@   on call GuardSet.Unlock assert locked ; then locked = false
+//@   on return assert !locked
+//@   ensures   err == nil ==> (stage == 5 && ltxFilename == "") || stage == 6
 //@   nopanic
